@@ -24,14 +24,16 @@ type c04In1G struct {
 }
 
 type c04In0G struct {
-	I  int64 // Int widened
-	S  string
-	R  int
-	E  ggql.Symbol
-	L  []int32
-	N  *c04In1G
-	Ln []*c04In1G
-	K  string
+	I   int64 // Int widened
+	S   string
+	R   int
+	E   ggql.Symbol
+	L   []int32
+	N   *c04In1G
+	Ln  []*c04In1G
+	K   string
+	Nd  *c04In1G
+	Lnd []*c04In1G
 }
 
 type c04In2G struct {
@@ -208,6 +210,8 @@ func (q *c04Q) F2(a, b interface{}) string {
 	return "ok"
 }
 
+func (q *c04Q) G(i interface{}) string { return "ok" }
+
 type c04RootX struct {
 	Query *c04Q
 }
@@ -230,10 +234,34 @@ func (c *c04Case) execute() (res map[string]interface{}, text string, calls []Ca
 	s = sch
 	vars = cs.GoVars()
 	text = c.Text
+	const extendIn1Warm = `query Q { w: g(i: {r: 1}) v: g(i: {r: 2, nd: {y: false}}) }`
+	const extendIn1SDL = `extend input In1 { z: String = "zz" }`
+	first := sch
+	if c.ExtendIn1 {
+		// (the same schema without the member the extension brings)
+		cp := *sch
+		cp.Types = append([]*hx.TypeDef{}, sch.Types...)
+		for i, td := range cp.Types {
+			if td.Name == "In1" {
+				c2 := *td
+				c2.Inputs = td.Inputs[:len(td.Inputs)-1]
+				cp.Types[i] = &c2
+			}
+		}
+		first = &cp
+		cs.Schema = first
+	}
 	if c.Strat != "X" {
 		var w *World
 		if w, err = NewWorld(cs); err != nil {
 			return
+		}
+		if c.ExtendIn1 {
+			_ = w.Root.ResolveString(extendIn1Warm, "Q", nil)
+			w.ResetCalls()
+			if err = w.Root.ParseString(extendIn1SDL); err != nil {
+				return
+			}
 		}
 		if c.GoInputs {
 			if err = registerGoInputs(w.Root); err != nil {
@@ -253,11 +281,20 @@ func (c *c04Case) execute() (res map[string]interface{}, text string, calls []Ca
 	ggql.MaxResolveDepth = 100
 	rec := &c04Rec{}
 	root := ggql.NewRoot(&c04RootX{Query: &c04Q{rec: rec, Z: 5}})
-	if err = root.ParseString(s.SDL(hx.SDLOpts{})); err != nil {
+	if err = root.ParseString(first.SDL(hx.SDLOpts{})); err != nil {
 		return
 	}
 	if err = root.RegisterType(&c04Q{}, "Query"); err != nil {
 		return
+	}
+	if c.ExtendIn1 {
+		_ = root.ResolveString(extendIn1Warm, "Q", nil)
+		rec.mu.Lock()
+		rec.calls = nil
+		rec.mu.Unlock()
+		if err = root.ParseString(extendIn1SDL); err != nil {
+			return
+		}
 	}
 	if c.ArgT2 != nil {
 		if err = root.RegisterField("Query", "f", "F2"); err != nil {
